@@ -30,9 +30,9 @@ type result struct {
 	Token        string `json:"token,omitempty"`
 	Desig        bool   `json:"designated,omitempty"`
 	Holder       bool   `json:"holder,omitempty"`
-	Survivor     bool   `json:"survivor,omitempty"` // hot upgrade: the client that keeps its one connection beyond the old process's exit
+	Survivor     bool   `json:"survivor,omitempty"`      // hot upgrade: the client that keeps its one connection beyond the old process's exit
 	Quiet        bool   `json:"after_silence,omitempty"` // the quiet survivor's request after its connection sat silent through the hand-over
-	Paired       bool   `json:"paired,omitempty"`   // sent while another request was outstanding on the same (multiplexed) connection
+	Paired       bool   `json:"paired,omitempty"`        // sent while another request was outstanding on the same (multiplexed) connection
 	KeepAlive    bool   `json:"keepalive"`
 	NewConn      bool   `json:"new_conn"`       // first request on its connection
 	ConnAfterSig bool   `json:"conn_after_sig"` // its connection was opened after the signal was sent
@@ -50,7 +50,7 @@ type result struct {
 	// proxy had provably more to write at that moment
 	StallBytes int64 `json:"stall_bytes,omitempty"`
 	Stalled    bool  `json:"stalled,omitempty"`
-	plan         *plan
+	plan       *plan
 }
 
 func (r *result) upSeen() int32 {
